@@ -281,8 +281,23 @@ def forms():
         "linspace": lambda m, x: m.linspace(x[0, 0], x[1, 1], 4),
         "zeros_like": lambda m, x: m.zeros_like(x) + m.ones_like(x),
         "isnan": lambda m, x: m.isnan(x),
+        # autograd's own containers holding traced values (plain + traced, traced + plain, slicing, dict access)
+        "tuple radd": lambda m, x: (1.0, 2.0) + _ab().tuple((x[0], x[1, 1])),
+        "tuple add": lambda m, x: _ab().tuple((x[0], x[1, 1])) + (1.0, 2.0),
+        "list radd": lambda m, x: [c[0]] + _ab().list([x[0], x[1]]),
+        "tuple add tuple": lambda m, x: _ab().tuple((x[0],)) + _ab().tuple((x[1], 3.0)),
+        "tuple slice": lambda m, x: _ab().tuple((x[0], x[1], x[0, 0]))[::-1][:2],
+        "dict values": lambda m, x: _ab().list(_ab().dict({"a": x[0], "b": x[1] * 2}).values()),
+        "dict get": lambda m, x: _ab().dict({"a": x[0], "b": x[1] * 2}).get("b"),
+        "nested containers": lambda m, x: _ab().tuple((_ab().list([x[0], 1.0]), _ab().dict({"k": x[1]}))),
     }
     return {k: v for k, v in F.items() if v is not None}
+
+
+def _ab():
+    import autograd.builtins as ab
+
+    return ab
 
 
 _FORMS = {}
